@@ -134,5 +134,7 @@ def run(rep, tier, seed):
     rep.cov["traces_validated_against_impl"] += len(recs)
     rep.cov["distinct_nontrivial"] = len(recs)
     rep.cov["samples"].append({k: v for k, v in recs[len(recs) // 2].items() if k not in ("parse",)})
+    from checks import sesscheck as SC
+    SC.pair_sessions(rep, seed + 5, 1 if tier == "quick" else 6)
     rep.assumptions += ["zlib (python) and hashlib are trusted", "schedule independence of the container sequence is "
                         "C07's FileOutUnique"]
